@@ -50,7 +50,6 @@ theorem listCont_ok (R : Route) (op : Op) (σ : St) (th : Thread) (cur : Option 
     cases decodeList v <;> simp [finish, pcOK]
 
 
-namespace Tunnox.C14
 
 theorem StepOK.of_parts {R : Route} {tid : Nat} {th : Thread} {o : Out}
     (h1 : o.th.op = th.op) (h2 : pcOK R o.th) (h3 : ∀ e ∈ o.evs, e.tid = tid ∧ tierOK R th.op e.tier)
